@@ -1,4 +1,5 @@
 """C06 -- generated unit files read back exactly as generated; values cannot forge lines."""
+import os
 import vlib, gen_conv, gen_units, docs
 from vlib import hx, unhx, case_line, show
 
@@ -96,9 +97,44 @@ def unit_ops(ctx):
     ctx.oblig("correspondence: model multimap operations (add, add_raw, set, prepend, rename_section, merge_from, to_string) = implementation on random operation sequences", mism == 0, "%d mismatches" % mism)
 
 
+def stale_level(ctx):
+    """the FILE that is written: a real run into an output directory that already holds older, longer files under the same names
+    (what a regeneration after a unit was shortened meets) must leave exactly the generated text -- read back, nothing of the old file remains"""
+    import e2e
+    rng = ctx.rng
+    with e2e.Box() as box:
+        for i in range(ctx.volume(6, 60)):
+            files = {}
+            for j in range(rng.randint(2, 5)):
+                typ = rng.choice(list(docs.TYPES))
+                files["u/s%d.%s" % (j, typ)] = gen_conv.gen_unit(rng, typ, 0.3)[0]
+            root = box.path("st%d" % i)
+            e2e.make_tree(root, files)
+            rc, out, err = e2e.run_quadlet([os.path.join(root, "u")], os.path.join(root, "fresh"))
+            fresh = {k: v for k, v in e2e.snapshot(os.path.join(root, "fresh")).items() if v[0] == "f"}
+            os.makedirs(os.path.join(root, "reused"))
+            for name, v in fresh.items():
+                pth = os.path.join(root, "reused", name)
+                os.makedirs(os.path.dirname(pth), exist_ok=True)
+                with open(pth, "wb") as f:
+                    f.write(v[1] + b"[Install]\nWantedBy=stale.target\n" + b"# an older, longer version of this file\n" * rng.randint(1, 400))
+            rc2, out2, err2 = e2e.run_quadlet([os.path.join(root, "u")], os.path.join(root, "reused"))
+            reused = {k: v for k, v in e2e.snapshot(os.path.join(root, "reused")).items() if v[0] == "f"}
+            ctx.evaluations += 1
+            ctx.count("stale_output_dirs")
+            ctx.nontrivial.add(("stale", i))
+            for name, v in fresh.items():
+                # the two runs are separate processes: name=value option runs may come out in a different order (HashMap), nothing else may differ
+                same = name in reused and len(reused[name][1]) == len(v[1]) and sorted(reused[name][1].split()) == sorted(v[1].split())
+                if not same:
+                    got = reused.get(name, ("f", b""))[1]
+                    ctx.failures.append({"op": "e2e_stale", "files": files, "what": "%s written over an older, longer file reads back with %d bytes instead of the %d generated: stray tail %r" % (name, len(got), len(v[1]), got[len(v[1]):][:80]), "class": None})
+                    break
+
+
 def run(ctx):
     ctx.rule = ("units of all 7 types built from the documented key tables with injection payloads as values (escaped newlines followed by forged entries/sections, "
-                "brackets, '#', ';', '=', backslashes, controls, blanks at the edges), unusual file names (newline, '[', '=', '#', blanks), payloads in the directory part of Yaml= / File= / SetWorkingDirectory= and of the unit's own directory (the paths the generator derives and stores as WorkingDirectory=, --configmap), in absolute Volume= / Mount= sources alone and next to a blank, a quote or a backslash (stored as RequiresMountsFor=), and extra user sections; each converted, "
+                "brackets, '#', ';', '=', backslashes, controls, blanks at the edges), unusual file names (newline, '[', '=', '#', blanks), payloads in the directory part of Yaml= / File= / SetWorkingDirectory= and of the unit's own directory (the paths the generator derives and stores as WorkingDirectory=, --configmap), in absolute Volume= / Mount= sources alone and next to a blank, a quote or a backslash (stored as RequiresMountsFor=), and extra user sections; each converted, plus real runs into an output directory that already holds older, longer files of the same names (the written file must be exactly the generated text); "
                 "the service serialised as to_string does and read back by the implementation's parser; plus random multimap operation sequences model-vs-implementation; "
                 "non-trivial = unit carries at least one payload value or unusual name; distinct = distinct unit texts")
     rng = ctx.rng
@@ -180,6 +216,7 @@ def run(ctx):
             ctx.failures.append({"op": "convert+readback", "unit": show(text), "path": show(path), "case_hex": case_line("convert", "0", path, text),
                                  "what": "generated service does not read back as generated; first difference %s" % (diff,),
                                  "class": classify(rec["sections"], back)})
+    stale_level(ctx)
     ctx.samples = [{"path": show(p), "unit": show(t)} for _, p, t, _ in work[:4]]
     unknown = [f for f in ctx.failures if f["class"] is None]
     ctx.oblig("direct oracle: every generated service, serialised and read back by the implementation's parser, has exactly the generated sections and entries",
